@@ -94,3 +94,263 @@ Proof.
     injection H as <- <-; unfold chunk_spec; split_goal;
     repeat match goal with |- _ /\ _ => split | |- exists _, _ => eexists end; reflexivity.
 Qed.
+
+Ltac split_goal' :=
+  repeat (cbn; match goal with
+               | |- context [cont ?x] => is_var x; destruct x
+               | |- context [match ?x with _ => _ end] => is_var x; destruct x
+               | |- context [if ?x then _ else _] => is_var x; destruct x
+               | |- context [andb ?x _] => is_var x; destruct x
+               | |- context [orb ?x _] => is_var x; destruct x
+               | |- context [negb ?x] => is_var x; destruct x
+               | |- context [xorb ?x _] => is_var x; destruct x
+               end).
+
+Lemma next_chunk_some a r : exists c r', next_chunk (String a r) = Some (c, r').
+Proof. unfold next_chunk. split_goal'; eexists; eexists; reflexivity. Qed.
+
+Lemma unit_bytes_len h l b : unit_bytes h l = Some b -> (1 <= String.length b <= 3)%nat.
+Proof.
+  destruct h as [h0 h1 h2 h3 h4 h5 h6 h7], l as [l0 l1 l2 l3 l4 l5 l6 l7]. unfold unit_bytes.
+  repeat match goal with |- context [if ?x then _ else _] => destruct x end; intros E; try discriminate E;
+    injection E as <-; cbn [String.length]; lia.
+Qed.
+
+Lemma pair_bytes_len h1 l1 h2 l2 : String.length (pair_bytes h1 l1 h2 l2) = 4%nat.
+Proof.
+  destruct h1, l1, h2, l2. unfold pair_bytes. match goal with |- context [inc4 ?a ?b ?c ?d] => destruct (inc4 a b c d) as [[[[? ?] ?] ?] ?] end.
+  reflexivity.
+Qed.
+
+Lemma esc_u_len h l : String.length (esc_u h l) = 6%nat.
+Proof. destruct h, l. reflexivity. Qed.
+
+Lemma esc_chunk_head c : exists a t, esc_chunk c = String a t /\ Ascii.eqb a dq = false.
+Proof.
+  destruct c as [a|h l|h1 l1 h2 l2|a]; try (eexists; eexists; split; reflexivity).
+  destruct a as [b0 b1 b2 b3 b4 b5 b6 b7]. destruct b0, b1, b2, b3, b4, b5, b6, b7; eexists; eexists; split; reflexivity.
+Qed.
+
+Lemma next_chunk_shorter s c r : next_chunk s = Some (c, r) -> (String.length r < String.length s)%nat.
+Proof.
+  intros H. apply next_chunk_spec in H. destruct c; cbn [chunk_spec] in H.
+  - destruct H as [-> _]. cbn [String.length]. lia.
+  - destruct H as (_ & b & Hb & ->). apply unit_bytes_len in Hb. rewrite length_app. lia.
+  - destruct H as (_ & _ & ->). rewrite length_app, pair_bytes_len. lia.
+  - destruct H as [-> _]. cbn [String.length]. lia.
+Qed.
+
+(* the reader undoes the escaper, one code point at a time *)
+Lemma chunk_read s c r X : next_chunk s = Some (c, r) -> exists b, read_chunk (esc_chunk c ++ X) = Some (b, X) /\ s = b ++ r.
+Proof.
+  intros H. apply next_chunk_spec in H. destruct c; cbn [chunk_spec esc_chunk] in *.
+  - destruct H as [-> Ha]. exists (String a EmptyString). split; [now apply read_chunk_ascii|reflexivity].
+  - destruct H as (Hh & b & Hb & ->). exists b. split; [now apply read_chunk_single|reflexivity].
+  - destruct H as (H1 & H2 & ->). eexists. split; [now apply read_chunk_pair|reflexivity].
+  - destruct H as [-> Ha]. destruct (lone_bytes a Ha) as [L1 L2]. exists (String a EmptyString). split; [now apply read_chunk_single|reflexivity].
+Qed.
+
+Lemma chunk_len s c r : next_chunk s = Some (c, r) -> (String.length s <= String.length (esc_chunk c) + String.length r)%nat.
+Proof.
+  intros H. apply next_chunk_spec in H. destruct (esc_chunk_head c) as (a0 & t & Ec & _). destruct c; cbn [chunk_spec] in H.
+  - destruct H as [-> _]. rewrite Ec. cbn [String.length]. lia.
+  - destruct H as (_ & b & Hb & ->). apply unit_bytes_len in Hb. cbn [esc_chunk]. rewrite length_app, esc_u_len. lia.
+  - destruct H as (_ & _ & ->). cbn [esc_chunk]. rewrite !length_app, pair_bytes_len, !esc_u_len. lia.
+  - destruct H as [-> _]. cbn [esc_chunk]. rewrite esc_u_len. cbn [String.length]. lia.
+Qed.
+
+Lemma esc_go_len n : forall s, (String.length s <= n)%nat -> (String.length s <= String.length (esc_go n s))%nat.
+Proof.
+  induction n as [|n IH]; intros s Hn; [destruct s; [cbn; lia|cbn in Hn; lia]|].
+  destruct s as [|a s']; [cbn; lia|]. destruct (next_chunk_some a s') as (c & r & E). cbn [esc_go]. rewrite E.
+  pose proof (chunk_len _ _ _ E) as H1. pose proof (next_chunk_shorter _ _ _ E) as H2. rewrite length_app.
+  assert (String.length r <= n)%nat as Hr by (cbn [String.length] in *; lia). specialize (IH r Hr). lia.
+Qed.
+
+Lemma read_str_step f s a t b r' : s = String a t -> Ascii.eqb a dq = false -> read_chunk s = Some (b, r') ->
+  read_str (S f) s = match read_str f r' with Some (bs, r'') => Some (b ++ bs, r'') | None => None end.
+Proof. intros -> Hq Hr. cbn [read_str]. now rewrite Hq, Hr. Qed.
+
+Theorem read_str_esc n : forall s X fuel, (String.length s <= n)%nat -> (String.length s < fuel)%nat ->
+  read_str fuel (esc_go n s ++ String dq X) = Some (s, X).
+Proof.
+  induction n as [|n IH]; intros s X fuel Hn Hf.
+  - destruct s; [|cbn in Hn; lia]. destruct fuel; [lia|]. reflexivity.
+  - destruct s as [|a s'].
+    + destruct fuel; [lia|]. reflexivity.
+    + destruct (next_chunk_some a s') as (c & r & E). cbn [esc_go]. rewrite E.
+      destruct (chunk_read _ _ _ (esc_go n r ++ String dq X) E) as (b & Hr & Hs).
+      pose proof (next_chunk_shorter _ _ _ E) as Hlen.
+      destruct fuel as [|f]; [lia|].
+      rewrite OutputStr.app_assoc.
+      destruct (esc_chunk_head c) as (a0 & t & Ec & Hq).
+      rewrite (read_str_step f (esc_chunk c ++ esc_go n r ++ String dq X) a0 (t ++ esc_go n r ++ String dq X) b (esc_go n r ++ String dq X)); [|now rewrite Ec|exact Hq|exact Hr].
+      rewrite IH; [now rewrite Hs| |]; cbn [String.length] in *; lia.
+Qed.
+
+(* json.dumps of a str, then the reader: the str, for EVERY byte string (lone surrogates of surrogateescape included) *)
+Theorem json_quote_read s X : exists r, json_quote s ++ X = String dq r /\ read_str (S (String.length r)) r = Some (s, X).
+Proof.
+  exists (esc_go (String.length s) s ++ String dq X). split.
+  - unfold json_quote. cbn [append]. now rewrite OutputStr.app_assoc.
+  - apply read_str_esc; [lia|]. rewrite length_app. pose proof (esc_go_len (String.length s) s (le_n _)). cbn [String.length]. lia.
+Qed.
+
+(* ------------------------------------------------------------------ ASCII *)
+Lemma ascii_bytes_app a b : ascii_bytes (a ++ b) = ascii_bytes a && ascii_bytes b.
+Proof. induction a as [|x a IH]; [reflexivity|]. destruct x. cbn [append ascii_bytes]. now rewrite IH, andb_assoc. Qed.
+
+Lemma hex2_ascii a : ascii_bytes (hex2 a) = true.
+Proof. destruct a as [b0 b1 b2 b3 b4 b5 b6 b7]. destruct b0, b1, b2, b3, b4, b5, b6, b7; reflexivity. Qed.
+
+Lemma esc_u_ascii h l : ascii_bytes (esc_u h l) = true.
+Proof. unfold esc_u. cbn [ascii_bytes bsl]. cbn. now rewrite ascii_bytes_app, !hex2_ascii. Qed.
+
+Lemma esc_chunk_ascii c : ascii_bytes (esc_chunk c) = true.
+Proof.
+  destruct c as [a|h l|h1 l1 h2 l2|a]; cbn [esc_chunk]; try apply esc_u_ascii.
+  - destruct a as [b0 b1 b2 b3 b4 b5 b6 b7]. destruct b0, b1, b2, b3, b4, b5, b6, b7; reflexivity.
+  - now rewrite ascii_bytes_app, !esc_u_ascii.
+Qed.
+
+Lemma esc_go_ascii n : forall s, ascii_bytes (esc_go n s) = true.
+Proof.
+  induction n as [|n IH]; intros s; [reflexivity|]. cbn [esc_go]. destruct (next_chunk s) as [[c r]|]; [|reflexivity].
+  now rewrite ascii_bytes_app, esc_chunk_ascii, IH.
+Qed.
+
+Theorem json_quote_ascii s : ascii_bytes (json_quote s) = true.
+Proof. unfold json_quote. cbn [ascii_bytes dq]. cbn. now rewrite ascii_bytes_app, esc_go_ascii. Qed.
+
+Lemma bit7_is_ascii a : bit7 a = false -> is_ascii a = true.
+Proof. destruct a as [b0 b1 b2 b3 b4 b5 b6 b7]. cbn [bit7]. intros ->. destruct b0, b1, b2, b3, b4, b5, b6; reflexivity. Qed.
+
+Lemma ascii_bytes_only s : ascii_bytes s = true -> ascii_only s = true.
+Proof.
+  induction s as [|a s IH]; [reflexivity|]. destruct a as [b0 b1 b2 b3 b4 b5 b6 b7]. cbn [ascii_bytes ascii_only]. intros H.
+  apply andb_true_iff in H as [H1 H2]. rewrite IH by exact H2. rewrite bit7_is_ascii; [reflexivity|]. cbn [bit7]. now destruct b7.
+Qed.
+
+Theorem ascii_bytes_utf8 s : ascii_bytes s = true -> utf8_valid s = true.
+Proof. intros H. now apply ascii_valid, ascii_bytes_only. Qed.
+
+(* ================================================================== documents *)
+Fixpoint json_ind' (P : json -> Prop) (Hnull : P JNull) (Hbool : forall b, P (JBool b)) (Hnum : forall z, P (JNum z))
+         (Hstr : forall s, P (JStr s)) (Harr : forall l, Forall P l -> P (JArr l))
+         (Hobj : forall l, Forall (fun kv => P (snd kv)) l -> P (JObj l)) (j : json) {struct j} : P j :=
+  match j with
+  | JNull => Hnull
+  | JBool b => Hbool b
+  | JNum z => Hnum z
+  | JStr s => Hstr s
+  | JArr l => Harr l ((fix go (l : list json) : Forall P l :=
+                         match l with
+                         | [] => Forall_nil P
+                         | x :: r => Forall_cons x (json_ind' P Hnull Hbool Hnum Hstr Harr Hobj x) (go r)
+                         end) l)
+  | JObj l => Hobj l ((fix go (l : list (string * json)) : Forall (fun kv => P (snd kv)) l :=
+                         match l with
+                         | [] => Forall_nil _
+                         | kv :: r => Forall_cons kv (match kv as kv0 return P (snd kv0) with
+                                                      | (k, x) => json_ind' P Hnull Hbool Hnum Hstr Harr Hobj x
+                                                      end) (go r)
+                         end) l)
+  end.
+
+(* ---------- the layout of arrays and objects as top-level functions ---------- *)
+Fixpoint atail (lvl : nat) (l : list json) : string :=
+  match l with
+  | [] => EmptyString
+  | y :: r => json_dumps_item_sep ++ ind (S lvl) ++ dumps_at (S lvl) y ++ atail lvl r
+  end.
+Fixpoint mtail (lvl : nat) (l : list (string * json)) : string :=
+  match l with
+  | [] => EmptyString
+  | (k, y) :: r => json_dumps_item_sep ++ ind (S lvl) ++ json_quote k ++ json_dumps_key_sep ++ dumps_at (S lvl) y ++ mtail lvl r
+  end.
+
+Lemma dumps_arr lvl x r :
+  dumps_at lvl (JArr (x :: r)) = String "["%char (ind (S lvl) ++ dumps_at (S lvl) x ++ atail lvl r ++ ind lvl ++ "]").
+Proof.
+  cbn [dumps_at]. change ("[" ++ ?X) with (String "["%char X). do 4 f_equal.
+  induction r as [|y r IH]; [reflexivity|]. cbn [atail]. now rewrite <- IH.
+Qed.
+
+Lemma dumps_obj lvl k x r :
+  dumps_at lvl (JObj ((k, x) :: r)) =
+  String "{"%char (ind (S lvl) ++ json_quote k ++ json_dumps_key_sep ++ dumps_at (S lvl) x ++ mtail lvl r ++ ind lvl ++ "}").
+Proof.
+  cbn [dumps_at]. change ("{" ++ ?X) with (String "{"%char X). do 6 f_equal.
+  induction r as [|[k' y] r IH]; [reflexivity|]. cbn [mtail]. now rewrite <- IH.
+Qed.
+
+(* ---------- ASCII ---------- *)
+Fixpoint all_num (s : string) : bool := match s with EmptyString => true | String a r => num_char a && all_num r end.
+
+Lemma only_digits_all_num s : only_digits s = true -> all_num s = true.
+Proof.
+  induction s as [|a s IH]; [reflexivity|]. cbn [only_digits all_num]. intros H. apply andb_true_iff in H as [H1 H2].
+  unfold num_char. now rewrite H1, IH.
+Qed.
+
+Lemma show_Z_all_num z : all_num (show_Z z) = true.
+Proof.
+  destruct z as [|p|p]; [reflexivity| |].
+  - destruct (show_Z_nonneg (Zpos p)) as (d & _ & -> & _); [lia|]. apply only_digits_all_num, only_digits_uint.
+  - rewrite show_Z_neg. cbn [all_num]. destruct (show_Z_nonneg (Zpos p)) as (d & _ & -> & _); [lia|].
+    now rewrite only_digits_all_num by apply only_digits_uint.
+Qed.
+
+Lemma show_Z_head z : exists c t, show_Z z = String c t /\ num_char c = true.
+Proof.
+  pose proof (show_Z_all_num z) as H. destruct z as [|p|p].
+  - eexists; eexists; split; reflexivity.
+  - destruct (show_Z_pos_first p) as (a & r & E & _). rewrite E in *. exists a, r. split; [reflexivity|].
+    cbn [all_num] in H. now apply andb_true_iff in H as [H _].
+  - rewrite show_Z_neg. eexists; eexists; split; reflexivity.
+Qed.
+
+Lemma num_char_bit7 a : num_char a = true -> bit7 a = false.
+Proof. destruct a as [b0 b1 b2 b3 b4 b5 b6 b7]. destruct b7; [|reflexivity]. destruct b0, b1, b2, b3, b4, b5, b6; intros H; discriminate H. Qed.
+
+Lemma all_num_ascii s : all_num s = true -> ascii_bytes s = true.
+Proof.
+  induction s as [|a s IH]; [reflexivity|]. cbn [all_num]. intros H. apply andb_true_iff in H as [H1 H2].
+  apply num_char_bit7 in H1. destruct a. cbn [bit7] in H1. subst. cbn [ascii_bytes]. now rewrite IH.
+Qed.
+
+Lemma spaces_ascii n : ascii_bytes (spaces n) = true.
+Proof. induction n; [reflexivity|]. cbn [spaces]. unfold sp. cbn. exact IHn. Qed.
+
+Lemma ind_ascii lvl : ascii_bytes (ind lvl) = true.
+Proof. unfold ind. unfold nl. cbn. apply spaces_ascii. Qed.
+
+Lemma seps_ascii : ascii_bytes json_dumps_item_sep = true /\ ascii_bytes json_dumps_key_sep = true.
+Proof. split; reflexivity. Qed.
+
+Theorem dumps_ascii j : forall lvl, ascii_bytes (dumps_at lvl j) = true.
+Proof.
+  destruct seps_ascii as [Si Sk].
+  induction j using json_ind'; intros lvl; try reflexivity.
+  - destruct b; reflexivity.
+  - apply all_num_ascii, show_Z_all_num.
+  - apply json_quote_ascii.
+  - destruct l as [|x r]; [reflexivity|]. rewrite dumps_arr. inversion H as [|? ? Hx Hr]; subst.
+    change (ascii_bytes (String "["%char ?X)) with (ascii_bytes X). rewrite !ascii_bytes_app, !ind_ascii, Hx.
+    assert (T : ascii_bytes (atail lvl r) = true).
+    { clear Hx H. induction Hr as [|y r Hy _ IH]; [reflexivity|]. cbn [atail]. now rewrite !ascii_bytes_app, Si, ind_ascii, Hy, IH. }
+    now rewrite T.
+  - destruct l as [|[k x] r]; [reflexivity|]. rewrite dumps_obj. inversion H as [|? ? Hx Hr]; subst. cbn [snd] in Hx.
+    change (ascii_bytes (String "{"%char ?X)) with (ascii_bytes X). rewrite !ascii_bytes_app, !ind_ascii, json_quote_ascii, Sk, Hx.
+    assert (T : ascii_bytes (mtail lvl r) = true).
+    { clear Hx H. induction Hr as [|[k' y] r Hy _ IH]; [reflexivity|]. cbn [mtail snd] in *.
+      now rewrite !ascii_bytes_app, Si, ind_ascii, json_quote_ascii, Sk, Hy, IH. }
+    now rewrite T.
+Qed.
+
+(* stdout of the JSON and SARIF renderings is ASCII, hence well-formed UTF-8 whatever the encoding of stdout *)
+Theorem stdout_ascii j : ascii_bytes (stdout_of j) = true.
+Proof. unfold stdout_of, dumps. now rewrite ascii_bytes_app, dumps_ascii. Qed.
+
+Theorem stdout_utf8 j : utf8_valid (stdout_of j) = true.
+Proof. apply ascii_bytes_utf8, stdout_ascii. Qed.
